@@ -50,7 +50,7 @@ def relationsHoldPinned (C : Codecs) (pinned : List (String × Expr)) (env : Env
       | _ => false) && relationsHoldPinned C pinned env plen pad r
   | pad, .forCountSub _ f g typ _ :: r =>
     (match env.get f with
-      | some (.ts vs) => evalEnv env (lookupRel pinned f (.fint g)) == some vs.length && vs.all (tupOk C typ)
+      | some (.ts vs) => evalEnv env (lookupRel pinned f (.fint g)) == some vs.length && vs.all (tupOk C typ) && vs.all (tupFix C typ)
       | _ => false) && relationsHoldPinned C pinned env plen pad r
   | pad, .whileFitsSub _ f typ _ :: r =>
     (match env.get f with | some (.ts vs) => vs.all (tupOk C typ) | _ => false) && relationsHoldPinned C pinned env plen pad r
